@@ -414,8 +414,19 @@ impl<'a> SemanticBuilder<'a> {
         let mut result = Vec::with_capacity(data.len());
         let mut prev_line = 0;
         let mut prev_col = 0;
+        let mut prev_end: Option<(u32, u32)> = None;
 
         for token_data in data {
+            // tokens must not overlap (the pieces of a multi-line token are not covered by the
+            // start-offset de-duplication): keep the first one
+            if let Some((end_line, end_col)) = prev_end
+                && token_data.line == end_line
+                && token_data.col < end_col
+            {
+                continue;
+            }
+            prev_end = Some((token_data.line, token_data.col + token_data.length));
+
             let line_diff = token_data.line - prev_line;
             if line_diff != 0 {
                 prev_col = 0;
